@@ -165,7 +165,7 @@ def _shrink_world(world, persists, budget, log):
             break
         c2 = copy.deepcopy(cur)
         del c2["faults"][idx]
-        if not any(f["seam"] == "lib" for f in c2["faults"]):
+        if not any(f["seam"] in ("lib", "alloc") for f in c2["faults"]):
             c2["config"]["simlib"] = False
         budget[0] -= 1
         if persists(c2):
